@@ -2,11 +2,11 @@ package vsync
 
 import (
 	"context"
-	"sync/atomic"
 	"fmt"
 	"iter"
 	"reflect"
 	"sync"
+	"sync/atomic"
 	"time"
 )
 
